@@ -43,6 +43,9 @@ impl Driver for D {
                 let (eps, delta) = (fb(&op[1]), fb(&op[2]));
                 let mut f = CountMinSketch::<u64, u64, RecBuild>::with_point_query_properties_and_hasher(eps, delta, RecBuild::new(Kind::Sip));
                 let r = vec![f.w().to_string(), f.d().to_string()];
+                if (f.w() as f64) * eps < std::f64::consts::E * (1.0 - 1e-12) || (f.d() as f64) < (1.0 / delta).ln() * (1.0 - 1e-12) {
+                    ctx.fail("C08", format!("cms with_point_query_properties({}, {}): w={} d={} but the guarantee needs w >= e/eps and d >= ln(1/delta)", eps, delta, f.w(), f.d()));
+                }
                 if f.w() < 1 || f.d() < 1 {
                     ctx.fail("C08", format!("cms with_point_query_properties({}, {}) unusable: w={} d={}", eps, delta, f.w(), f.d()));
                 } else if f.w() * f.d() <= 4_000_000 {
